@@ -19,7 +19,8 @@ TRUSTED = ["props/selkit.py prints the structured selectors as source text",
            "clause unify-sound uses the implementation's own is-superselector (tied to the model by C23)"]
 ASSUMPTIONS = ["Selector::unify (inner_unify / unify_relbox) is not modelled: extend and replace are modelled with unify as a "
                "parameter and their theorems hold for every unify; soundness of unify is tested per case (operands with descendant / "
-               "child combinators only and no pseudo-element, where rsass's is-superselector is a complete test), not proved"]
+               "child or descendant / sibling combinators and no pseudo-element, where rsass's is-superselector is a complete test), "
+               "not proved"]
 
 
 def sq(text):
@@ -71,15 +72,15 @@ def small_comp(rng):
     return c
 
 
-def ap_chain(rng, n=None):
+def ap_chain(rng, n=None, kinds="AAP"):
     n = n or rng.choice([1, 2, 2, 3, 3, 4])
     s = sel(small_comp(rng))
     for _ in range(n - 1):
-        s = sel(small_comp(rng), [rng.choice("AAP"), s])
+        s = sel(small_comp(rng), [rng.choice(kinds), s])
     return s
 
 
-def related_chain(rng, a):
+def related_chain(rng, a, kinds="APP", root_kinds="AP"):
     """a chain sharing compounds with a (so that unify_relbox finds local superselectors), other combinators"""
     import copy
     nodes = []
@@ -98,12 +99,12 @@ def related_chain(rng, a):
                 c["cl"].append(x)
     s = sel(keep[0])
     for c in keep[1:]:
-        s = sel(c, [rng.choice("APP"), s])
-    if rng.random() < 0.3:
+        s = sel(c, [rng.choice(kinds), s])
+    if rng.random() < 0.35:
         root = s
         while root["rel"] is not None:
             root = root["rel"][1]
-        root["rel"] = [rng.choice("AP"), sel(small_comp(rng))]
+        root["rel"] = [rng.choice(root_kinds), sel(small_comp(rng))]
     return s
 
 
@@ -139,6 +140,8 @@ CORPUS = [
      "b": [sel(comp(ps=[["not", False, ["s", [sel(comp(cl=["a"])), sel(comp(cl=["b"]))]]]]))], "c": []},      # K2 witness
     {"kind": 2, "a": [chain(comp(cl=["x"]), "A", comp(cl=["a"]), "A", comp(cl=["c"]))], "b": [chain(comp(cl=["a"]), "P", comp(cl=["d"]))], "c": []},
     {"kind": 2, "a": [chain(comp(cl=["a"]), "A", comp(cl=["c"]))], "b": [chain(comp(cl=["a"]), "P", comp(cl=["d"]))], "c": []},
+    {"kind": 2, "a": [chain(comp(cl=["c"]), "J", comp(cl=["s1"]))], "b": [chain(comp(cl=["y"]), "A", comp(cl=["c"]), "S", comp(cl=["s2"]))], "c": []},
+    {"kind": 2, "a": [chain(comp(cl=["x"]), "A", comp(cl=["c"]), "S", comp(cl=["a"]))], "b": [chain(comp(cl=["c"]), "J", comp(cl=["a"]))], "c": []},
     {"kind": 2, "a": [chain(comp(cl=["x"]), "P", comp(cl=["a"]), "A", comp(cl=["c"]))], "b": [chain(comp(cl=["y"]), "A", comp(cl=["a", "b"]), "P", comp(cl=["c"]))], "c": []},
     {"kind": 2, "a": [chain(comp(cl=["a"]), "A", comp(cl=["b"]))], "b": [chain(comp(cl=["c"]), "A", comp(cl=["d"]))], "c": []},
     {"kind": 3, "a": [sel(comp(el="a", cl=["b"])), sel(comp(cl=["c"]))], "b": [sel(comp(cl=["b"]))], "c": [sel(comp(cl=["x"]))]},
@@ -159,7 +162,7 @@ def gen_cases(ctx, tier):
         cases.append({"kind": 0, "a": a, "b": strip_ph(b), "c": []})
     for _ in range(200 * n):
         cases.append({"kind": 1, "a": gl(rng, 2), "b": [gen_suffix(rng) for _ in range(rng.randint(1, 2))], "c": []})
-    for _ in range(450 * n):
+    for _ in range(600 * n):
         a = gl(rng, 2, other=False)
         b = c23.spec_list(rng, a) if rng.random() < 0.4 else gl(rng, 2)
         if rng.random() < 0.4:
@@ -171,6 +174,12 @@ def gen_cases(ctx, tier):
         if r < 0.45:                      # descendant / child chains over a small vocabulary, often related
             a = [ap_chain(rng) for _ in range(rng.choice([1, 1, 2]))]
             b = [related_chain(rng, rng.choice(a)) if rng.random() < 0.7 else ap_chain(rng)
+                 for _ in range(rng.choice([1, 1, 2]))]
+            if rng.random() < 0.5:
+                a, b = b, a
+        elif r < 0.75:                    # descendant / sibling chains (`+`, `~`), no child combinator
+            a = [ap_chain(rng, kinds="AASJ") for _ in range(rng.choice([1, 1, 2]))]
+            b = [related_chain(rng, rng.choice(a), "ASJJS", "AASJ") if rng.random() < 0.7 else ap_chain(rng, kinds="AASJ")
                  for _ in range(rng.choice([1, 1, 2]))]
             if rng.random() < 0.5:
                 a, b = b, a
